@@ -613,6 +613,9 @@ func paramIndex(f *FuncInfo, v *types.Var) int {
 func roleString(info *types.Info, e ast.Expr, roles map[types.Object]string) string {
 	switch x := ast.Unparen(e).(type) {
 	case *ast.Ident:
+		if x.Name == "_" {
+			return "_"
+		}
 		o := info.Uses[x]
 		if o == nil {
 			o = info.Defs[x]
@@ -644,6 +647,17 @@ func roleString(info *types.Info, e ast.Expr, roles map[types.Object]string) str
 		return "*" + roleString(info, x.X, roles)
 	case *ast.TypeAssertExpr:
 		return roleString(info, x.X, roles) + ".(T)"
+	case *ast.SliceExpr:
+		lo, hi := "", ""
+		if x.Low != nil {
+			lo = roleString(info, x.Low, roles)
+		}
+		if x.High != nil {
+			hi = roleString(info, x.High, roles)
+		}
+		return roleString(info, x.X, roles) + "[" + lo + ":" + hi + "]"
+	case *ast.ParenExpr:
+		return roleString(info, x.X, roles)
 	}
 	return exprString(e)
 }
